@@ -79,6 +79,9 @@ func vShapeRel(capacity, pad int, withFree bool, emptied int) *vWorld {
 	// a populated zero-target table: bulk moves (target death, batch retargeting) then arrive
 	// in a destination that already holds rows
 	zc := W.create([]int{cR1, cA}, Entity{}, Entity{})
+	// a second row in (R1->p0, R2->p1): swap-removes there move the payload column that follows the
+	// zero-size relation column
+	dup := W.create([]int{cR1, cR2}, h0, h1)
 	for i := 0; i < W.n; i++ {
 		if W.e[i].alive {
 			W.havocValues(i)
@@ -91,7 +94,8 @@ func vShapeRel(capacity, pad int, withFree bool, emptied int) *vWorld {
 	case 2:
 		W.removeEntity(6) // the only child in (R1->p1, R2->zero)
 	case 3:
-		W.removeEntity(5) // the only child in (R1->p0, R2->p1)
+		W.removeEntity(5) // both children in (R1->p0, R2->p1)
+		W.removeEntity(dup)
 	case 4:
 		W.removeEntity(zc) // the only child in (R1->zero, A): an emptied table without a target
 	}
@@ -703,18 +707,18 @@ func vPickOp(steps int) int {
 	return op
 }
 
-func VerifC01T_History2Plain() { vHistory(false, 2, 3) }
-func VerifC04T_History2Rel()   { vHistory(true, 2, 3) }
-func VerifC01T_History3Plain() { vHistory(false, 3, 2) }
-func VerifC04T_History3Rel()   { vHistory(true, 3, 2) }
+func VerifC01T_History2Plain() { vNoMul = true; vHistory(false, 2, 3) }
+func VerifC04T_History2Rel()   { vNoMul = true; vHistory(true, 2, 3) }
+func VerifC01T_History3Plain() { vNoMul = true; vHistory(false, 3, 2) }
+func VerifC04T_History3Rel()   { vNoMul = true; vHistory(true, 3, 2) }
 
 // other ID placements and capacities (thorough)
-func VerifC01T_PlainAddPad0()        { vRun(1, func() { vStepPlainV(1, 2, 0, 4) }) }
-func VerifC01T_PlainRemovePad124()   { vRun(1, func() { vStepPlainV(2, 1, 124, 4) }) }
-func VerifC01T_PlainExchangePad250() { vRun(1, func() { vStepPlainV(3, 2, 250, 4) }) }
-func VerifC01T_RelAddPad250()        { vRun(1, func() { vStepRelV(1, 2, 250, 5) }) }
-func VerifC04T_RelRemoveEntityAll()  { vRun(1, func() { vStepRelV(5, 2, 190, 5) }) }
-func VerifC04T_RelSetRelationsAll()  { vRun(1, func() { vStepRelV(4, 1, 126, 5) }) }
+func VerifC01T_PlainAddPad0()        { vNoMul = true; vRun(1, func() { vStepPlainV(1, 2, 0, 4) }) }
+func VerifC01T_PlainRemovePad124()   { vNoMul = true; vRun(1, func() { vStepPlainV(2, 1, 124, 4) }) }
+func VerifC01T_PlainExchangePad250() { vNoMul = true; vRun(1, func() { vStepPlainV(3, 2, 250, 4) }) }
+func VerifC01T_RelAddPad250()        { vNoMul = true; vRun(1, func() { vStepRelV(1, 2, 250, 5) }) }
+func VerifC04T_RelRemoveEntityAll()  { vNoMul = true; vRun(1, func() { vStepRelV(5, 2, 190, 5) }) }
+func VerifC04T_RelSetRelationsAll()  { vNoMul = true; vRun(1, func() { vStepRelV(4, 1, 126, 5) }) }
 
 // C02: removal through a stale handle (never-reused dead id, recycled id) is rejected and
 // leaves liveness and counts of everything else exact
